@@ -54,11 +54,13 @@ enum Fn
 };
 static const char *fn_name[] = {"strtol", "strtoul", "strtoll", "strtoull", "strtoimax", "strtoumax", "atoi", "atol"};
 
-static void t_strto(Src &s, Case &c)
+// forced_fn / forced_base >= 0: the strto_seq target calls one function several times in one base (same choices
+// otherwise); seq: deltas around the limits are concentrated on -1, 0, +1
+static void strto_one(Src &s, Case &c, int forced_fn, int forced_base, bool seq)
 {
-    Fn fn = (Fn)s.below(NFN);
+    Fn fn = forced_fn >= 0 ? (Fn)forced_fn : (Fn)s.below(NFN);
     bool is_ato = fn == ATOI || fn == ATOL;
-    int base = is_ato ? 10 : (int)s.pick({0, 0, 10, 16, 8, 2, 36, 3, 7, 11, 17, 35, -1});
+    int base = is_ato ? 10 : forced_base >= 0 ? forced_base : (int)s.pick({0, 0, 10, 16, 8, 2, 36, 3, 7, 11, 17, 35, -1});
     if (base == -1)
         base = (int)s.range(2, 36);
     std::string text;
@@ -111,6 +113,8 @@ static void t_strto(Src &s, Case &c)
         };
         unsigned __int128 lim = lims[s.below(6)];
         int delta = (int)s.range(0, 80) - 40;
+        if (seq && s.coin())
+            delta = (int)s.pick({-1, 0, 0, 1});
         if (is_ato)
         {
             // stay representable: |value| <= MAX (or MIN with '-')
@@ -225,6 +229,57 @@ static void t_strto(Src &s, Case &c)
     if (with_end)
         VP_CHECK(e1 == e2, "strto_end", "%s: end offset %td, ISO/glibc %td", fn_name[fn], e1 - p, e2 - p);
 }
+static void t_strto(Src &s, Case &c) { strto_one(s, c, -1, -1, false); }
+// Sequences of calls: one call in some other base first, then 2..4 calls of the same function in one base with
+// texts of varying sign around the limits — a conversion must not depend on what was converted before.
+static void t_strto_seq(Src &s, Case &c)
+{
+    int fn = (int)s.below(6); // the strto* family (atoi/atol take no base)
+    int base = (int)s.pick({10, 10, 16, 8, 2, 36, 0, 7});
+    int other = base == 10 ? 16 : 10;
+    {
+        // two fixed benign calls in two other bases first: whatever an earlier *case* of this worker process left behind
+        // (also a cache keyed by the base) is replaced here, so the sequence below is self-contained and reproduces
+        // from its replay file
+        for (int fb : {5, other})
+        {
+            char *e = nullptr;
+            switch (fn)
+            {
+            case STRTOL:
+                igc_strtol("1", &e, fb);
+                break;
+            case STRTOUL:
+                igc_strtoul("1", &e, fb);
+                break;
+            case STRTOLL:
+                igc_strtoll("1", &e, fb);
+                break;
+            case STRTOULL:
+                igc_strtoull("1", &e, fb);
+                break;
+            case STRTOIMAX:
+                igc_strtoimax("1", &e, fb);
+                break;
+            default:
+                igc_strtoumax("1", &e, fb);
+            }
+        }
+    }
+    strto_one(s, c, fn, other, true);
+    c.log(" | ");
+    int k = (int)s.range(2, 4);
+    for (int i = 0; i < k; i++)
+    {
+        strto_one(s, c, fn, base, true);
+        c.log(" | ");
+    }
+    c.nontrivial = true;
+    c.label("sequence");
+}
+VP_TARGET("strto_seq", t_strto_seq,
+          "one strto* function called once in another base and then 2..4 times in one base on texts of the strto grammar with signs varying and the "
+          "limit deltas concentrated on -1/0/+1; every call is compared with the host — results must not depend on earlier calls");
 VP_TARGET("strto", t_strto,
           "text from the grammar ws*[+-]?(0x|0X|0)?digits*tail around every base's alphabet, prefix and overflow "
           "boundary (type limit +-40, far overflow), base 0/2..36; oracle = host function; non-trivial = near a "
